@@ -265,6 +265,10 @@ class Server:
             self._onboard_thread.join()
         self.servlet.stop()
         self._gather_thread.join()
+        # Whatever is still in the ledger (requests abandoned by their callers whose
+        # results did not come out before the end marker) will never be answered.
+        # Do not let these entries occupy slots after the next `__enter__`.
+        self._uid_to_futures.clear()
 
     def call(self, x, /, *, timeout: int | float = 60, backpressure: bool = True):
         """
@@ -565,6 +569,9 @@ class AsyncServer:
                     await asyncio.wait_for(pipenotfull.wait(), 0.01)
                 except asyncio.TimeoutError:
                     pass
+
+        # See `Server.__exit__`.
+        self._uid_to_futures.clear()
 
     async def call(self, x, /, *, timeout: int | float = 60, backpressure: bool = True):
         """
